@@ -59,7 +59,7 @@ def parseCase (line : String) : Option Case :=
     let allowed ← parseNats allowed
     let msgs ← (splitList msgs).mapM parseMsg
     if gs > 400 || ops.length > 400 then none
-    else if !(step == "mv" || (stepOf step).isSome) then none
+    else if !(step == "mv" || step == "annh" || step == "coordh" || (stepOf step).isSome) then none
     else if !validVariant step variant then none
     else
       let leaderID := (firstSeat ops leader).getD 0
@@ -77,12 +77,32 @@ def parseOutcome : String → Option Outcome
   | "fault-imp" => some .faultImpersonation | "fault-mistake" => some .faultMistake
   | _ => none
 
+def showTrace (t : List (Outcome × Nat)) : String :=
+  showList (t.map fun e => if e.1 == .stored then s!"stored@{e.2}" else showOutcome e.1)
+
+/-- observed follower run: faults in order, optionally a final `stored@pos` -/
+def parseTrace (obs : String) : Option (List Outcome × Option Nat) :=
+  let toks := splitList obs
+  let rec go : List String → List Outcome → Option (List Outcome × Option Nat)
+    | [], acc => some (acc.reverse, none)
+    | [t], acc =>
+      if t.startsWith "stored@" then (t.drop 7).toString.toNat?.map (fun p => (acc.reverse, some p))
+      else (parseOutcome t).bind fun o => if o == .stored || o == .dropped then none else some ((o :: acc).reverse, none)
+    | t :: rest, acc =>
+      (parseOutcome t).bind fun o => if o == .stored || o == .dropped then none else go rest (o :: acc)
+  go toks []
+
 def model (line : String) : String :=
   match parseCase line with
   | none => "bad-op"
   | some c =>
     if c.step == "mv" then
       showList (c.msgs.map fun m => showOutcome (ofBool (isValidMembership c.ctx.ops m.idx m.netKey)))
+    else if c.step == "annh" then
+      showList ((readyList id c.ctx c.msgs).map (·.toNat))
+    else if c.step == "coordh" then
+      if (firstSeat c.ctx.ops c.leader).isNone then "SKIP"
+      else showTrace (followerTrace id c.ctx c.msgs 0)
     else match stepOf c.step with
       | none => "bad-op"
       | some s =>
@@ -93,6 +113,17 @@ def monitor (op obs : String) : String :=
   match parseCase op with
   | none => if obs == "bad-op" then "ok" else "FAIL bad-op"
   | some c =>
+    if c.step == "annh" then
+      match (parseNats obs).bind u8s with
+      | none => "FAIL unexpected-observation"
+      | some ready =>
+        if holdsReady id c.ctx c.msgs ready then "ok" else "FAIL ready-index-not-announced-by-its-holder"
+    else if c.step == "coordh" then
+      match parseTrace obs with
+      | none => "FAIL unexpected-observation"
+      | some (faults, acc) =>
+        if holdsTrace id c.ctx c.msgs faults acc then "ok" else "FAIL follower-acted-on-uncontrolled-sender"
+    else
     match (splitList obs).mapM parseOutcome with
     | none => "FAIL unexpected-observation"
     | some os =>
